@@ -642,7 +642,29 @@ class ScfRestart:
     def case(self, fmt):
         problems = self.case_one(fmt, False)
         problems.update({f"Gamma-only, restricted, LDA: {k}": v for k, v in self.case_one(fmt, True).items()})
+        problems.update({f"CH4, PBE, five pccg steps: {k}": v for k, v in self.case_total(fmt).items()})
         return problems
+
+    def case_total(self, fmt):
+        """A system for which compensated and naive summation of the stored contributions differ in the last bit: the restored object reports the stored total."""
+        import os
+        import tempfile
+
+        import eminus
+        from eminus import SCF, Atoms
+        from eminus.io import read, write
+
+        eminus.config.backend = "numpy"
+        eminus.config.verbose = "critical"
+        at = Atoms("CH4", [[0, 0, 0], [1.2, 1.2, 1.2], [-1.2, -1.2, 1.2], [1.2, -1.2, -1.2], [-1.2, 1.2, -1.2]], ecut=4, a=8)
+        scf = SCF(at, xc="pbe", opt={"pccg": 5}, etol=1e-12)
+        scf.run()
+        with tempfile.TemporaryDirectory() as d:
+            fn = os.path.join(d, "scf." + fmt)
+            write(scf, fn)
+            scf2 = read(fn)
+        a, b = float(scf.energies.Etot), float(scf2.energies.Etot)
+        return {} if a == b else {"Etot": dict(stored_object=a.hex(), restored_object=b.hex())}
 
     def case_one(self, fmt, gamma_only):
         import dataclasses
@@ -673,6 +695,15 @@ class ScfRestart:
         e1 = {f.name: getattr(scf.energies, f.name) for f in dataclasses.fields(scf.energies)}
         e2 = {f.name: getattr(scf2.energies, f.name) for f in dataclasses.fields(scf2.energies)}
         problems = {k: (float(e1[k]), float(e2[k])) for k in e1 if float(e1[k]) != float(e2[k])}
+        # the TOTAL energy the restored object reports (Energy.Etot sums the stored fields; Python's sum() adds floats with compensation and numpy.float64
+        # scalars naively, so fields restored with another scalar type give a total that differs in the last bit for about every third system) and, as the
+        # deterministic form of the same statement, the scalar type of every stored contribution
+        if float(scf.energies.Etot) != float(scf2.energies.Etot):
+            problems["Etot"] = (float(scf.energies.Etot).hex(), float(scf2.energies.Etot).hex())
+        for k in e1:
+            if type(e1[k]) is not type(e2[k]):
+                problems[f"type of the stored contribution {k}"] = (type(e1[k]).__name__, type(e2[k]).__name__)
+                break
         for ik in range(len(scf.W)):
             if not np.array_equal(np.asarray(scf.W[ik]), np.asarray(scf2.W[ik])):
                 problems[f"W[{ik}]"] = "coefficients differ"
